@@ -5,7 +5,8 @@ CONSTANTS
   Coords <- Coords13
   DEN = 4
   MaxNum = 4
-  Base <- BaseEqs2
+  Base <- TheBase
+  Which = "Eqs2"
   Mults <- QMults
   Adds <- QAdds
   Exps <- QExps
